@@ -2,9 +2,9 @@
 package c11
 
 import (
-	"strings"
 	"encoding/json"
 	"fmt"
+	"strings"
 
 	"github.com/runreveal/pql/parser"
 
